@@ -111,7 +111,7 @@ def mutants_reach(site: int, mut: int, rsel: int, tag: str, vsel: int,
 
 CONDITIONS = [
     {'fn': 'mutants', 'slices': pipeline.C02_SLICES,
-     'quick_slices': pipeline.C02_QUICK_SLICES, 'quick': 120,
+     'quick_slices': pipeline.C02_QUICK_SLICES, 'quick': 160,
      'thorough': 300, 'bound': pipeline.MUTANT_BOUND},
     {'fn': 'mutants_reach',
      'slices': [pipeline.slice_for('order', 0, 2)],
